@@ -133,9 +133,10 @@ var c17Probes = []c17Probe{
 	{"D12", "exported-builtin-name", "rename-exports", []string{
 		"(in-package 'app)\n(export 'max)\n(defun max (a b) (+ a b))\n(in-package 'user)\n(use-package 'app)\n(debug-print (max 1 2))\n"}, c17Cfg{PreserveParams: true, RenameExports: true}},
 
-	// D13, D14 — QUIET probes (c17QuietDefects): they only decide whether the "site
-	// names" family (c17_gen_site.go) may produce these two shapes; a failure is
-	// recorded in the evidence, not reported as a violation.
+	// D13, D14 — found while building the "site names" family (c17_gen_site.go),
+	// repaired in /repo by 5b0c6f8 (every global spelled like a template name keeps
+	// its name); ordinary probes now: a failure is a violation, and the family
+	// avoids the two shapes while their probes fail.
 	// D13 — a template's free name is defined by the macro's own package AND by the using package
 	{"D13", "template-name-defined-in-macro-package-and-using-package", "qualified-macro", []string{
 		"(in-package 'lib)\n(defun scale-it (v) (* v 3))\n(defmacro m1 (e) (quasiquote (+ (scale-it (unquote e)) 1)))\n(debug-print (m1 2))\n(in-package 'user)\n(defun scale-it (v) (* v 10))\n(debug-print (lib:m1 2))\n"}, c17Defaults},
@@ -151,7 +152,7 @@ var c17Probes = []c17Probe{
 // c17QuietDefects: defects found while extending the workload whose probes are
 // not (yet) reported as findings: the probes only steer the generator, and the
 // evidence lists them (observed_sets.quiet_probes_failing_not_reported).
-var c17QuietDefects = map[string]bool{"D13": true, "D14": true}
+var c17QuietDefects = map[string]bool{}
 
 // c17HazardDefect: the hazard family whose only purpose is to trigger a defect.
 var c17HazardDefect = map[string]string{
